@@ -501,6 +501,13 @@ static void generate_minimal_hash(Ports &p, Port_Matcher &pm)
             enump = true;
     if(enump)
         return;
+    //dispatch hashes the first path component of a message only, so names
+    //with several components ("a/b", "a/b/") can not be looked up that way
+    for(unsigned i=0; i<p.ports.size(); ++i) {
+        const char *slash = strchr(p.ports[i].name, '/');
+        if(slash && slash[1] && slash[1] != ':')
+            return;
+    }
     for(unsigned i=0; i<p.ports.size(); ++i)
     {
         std::string tmp = p.ports[i].name;
